@@ -227,6 +227,7 @@ def build(case, parallel=()):
         spec['cellvars'] = cellvars
         spec['templates'] = case['templates']
         spec['thin'] = (a is case['actors'][0])
+        spec['parallel_cells'] = ('cells' in parallel)
         params = {'spec': spec, 'name': a['name']}
         if a['kind'] == 'step':
             obj = _astep_class()(params)
@@ -287,11 +288,11 @@ def published(eng):
     return out
 
 
-def execute(case, parallel=(), restart_after=None):
+def execute(case, parallel=(), restart_after=None, sim_seed=None, tail_ops=()):
     opts = case['opts']
     unit = opts['unit']
     run = harness.Run()
-    harness.begin_run(0.0, seed=case.get('seed', 0))
+    harness.begin_run(0.0, seed=case.get('seed', 0), simmp_seed=sim_seed)
     register()
     from dst.wiring import register_updaters
     register_updaters()
@@ -318,6 +319,16 @@ def execute(case, parallel=(), restart_after=None):
                     eng = _restart(run, eng, case)
                     if eng is None:
                         break
+            if run.exc is None and eng is not None:
+                run.extra['final_state'] = REC.snapshot()
+                if tail_ops:
+                    harness.drive(run, eng, [list(o) for o in tail_ops], unit, lambda o: 2000000,
+                                  first_index=len(case['ops']))
+                    if run.extra.get('drop'):
+                        eng = None
+                        comp = None
+                        processes = steps = None
+                        harness.drop_engine(run)
     finally:
         harness.end_run()
     return harness.finish(run)
